@@ -80,6 +80,33 @@ func runTranslation(prop string, t target, tier string) int {
 		c.BrokenF("specification evaluation failed: %v", err)
 		return c.Finish()
 	}
+	// control-flow skeletons: enumerated and evaluated by TLC (CtlGen.tla)
+	var ctl []*SemCase
+	var err error
+	if c.Quick() {
+		ctl, err = ctlCases(c, 3, 16, []int{int(c.Seed) % 16, int(c.Seed+5) % 16, int(c.Seed+11) % 16})
+	} else {
+		all := make([]int, 16)
+		for i := range all {
+			all[i] = i
+		}
+		ctl, err = ctlCases(c, 3, 16, all)
+		if err == nil {
+			var more []*SemCase
+			more, err = ctlCases(c, 4, 256, []int{int(c.Seed) % 256, int(c.Seed+37) % 256, int(c.Seed+101) % 256, int(c.Seed+171) % 256,
+				int(c.Seed+200) % 256, int(c.Seed+13) % 256, int(c.Seed+77) % 256, int(c.Seed+150) % 256})
+			ctl = append(ctl, more...)
+		}
+	}
+	if err != nil {
+		c.BrokenF("control-flow family: %v", err)
+		return c.Finish()
+	}
+	c.Cov["ctl_programs"] = len(ctl)
+	for i, cs := range ctl {
+		cs.ID = 100000 + i
+	}
+	cases = append(cases, ctl...)
 	st := runSemantic(c, t, cases, meaningPreservingOpts(c, t.Name), defaultRowClass)
 	c.Programs = st.Programs
 	c.Cov["rows"] = st.Rows
